@@ -13,6 +13,7 @@ import Alpen.Model.Daemon
 import Alpen.Model.Import
 import Alpen.Model.Cli
 import Alpen.Model.Hsm
+import Alpen.Model.Transport
 /-!
 Line-protocol driver: one operation per line on stdin, one canonical answer line on
 stdout.  Strings travel as comma-separated code points (`-` = empty string).
@@ -240,6 +241,13 @@ def pure1 (toks : List String) : Option String :=
       else
         let (b', r) := hsmCheckTask (← f.toNat?) b (← decHsm ex) ans
         pure s!"{encBool r} {encNats (sortNats b'.restoring)} {encNats (sortNats b'.started)}"
+  | ["tpick", loc, nodes] => do
+      -- nodes: id:avail|-:underMin:overMax:fits
+      let ns ← decRecs (fun l => match l with
+        | [i, a, u, o, f] => do
+            pure (⟨← i.toNat?, ← decOptInt a, ← decBool u, ← decBool o, ← decBool f⟩ : TNode)
+        | _ => none) nodes
+      pure (match transportPick (← decBool loc) ns with | none => "-" | some i => toString i)
   | ["hsmrelease", headroom, avail, copies] => do
       pure (encNats (releaseFiles (← decInt headroom) (← decOptInt avail) (← decRecs decRCopy copies)))
   | ["hsmrefresh", rd, st] => do
